@@ -54,7 +54,111 @@ def targets():
     ]
 
 
-STAGES = []
+STAGES = [['C03_core.v'],
+          ['C03_steps.v', 'C03_partial_a.v', 'C03_partial_b.v',
+           ('C03_refuted_saam.v', {'finding': 'SAAM.am-quaternion/Q-nonfinite@level'})],
+          ['C03_batch.v'], ['C03.v']]
+
+LEVEL_TEXT = ("Coq theorems over the regenerated update steps: unit_after_step with the pre-normalisation vector proved non-zero "
+              "(Mahony IMU, AngularRate closed/series-1), length and unit invariant of the scan driver for every history length, "
+              "'unit or degenerate-zero on every path' for Madgwick IMU, ROLEQ, AQUA estimate, SAAM, FAMC, AngularRate series-2; "
+              "all 19 classes x architectures x frames x parameter sets explored by the search oracle on random and canonical-pose histories")
+LEVEL_NOTE = "partial: see PARTIAL"
+TECHNIQUE = "proof (Coq 8.16) over pysym-regenerated steps + hand driver model + float correspondence + numeric search oracle"
+RULE = ("every filter class x architecture x frame x parameter set on (a) random histories, N in {2,3,4,5,7}, per-sensor magnitudes "
+        "1e-3..1e3, acc/mag at least 1 degree from parallel, (b) every canonical pose (level at 8 headings, upside-down, x/y axis up and "
+        "down; two magnetic references), alone and after two random lead samples; float64 arrays, Python lists and (poses) integer-valued "
+        "arrays; non-trivial = distinct (configuration, pose-or-draw)")
+TRUSTED = ["Coq 8.16.1 kernel; vm_compute for the float copies", "pysym tracing translator (/verif/tools/pysym)",
+           "hand-written driver model coq/model/C03_driver.v (scan / map), tied to the code by the row-count correspondence",
+           "stdlib real-number axioms (sig_forall_dec, sig_not_dec, functional_extensionality_dep) and Classical_Prop.classic via Reals trigonometry",
+           "real arithmetic stands for binary64 (measured by correspondence, not proved)",
+           "LAPACK (inv, eig/eigh, cholesky, solve) and NumPy's global RNG (OLEQ): not modelled; EKF, UKF, Davenport, FLAE, OLEQ, QUEST, FKF are covered by the search oracle only"]
+PARTIAL = ("proved: one row per sample for any scan/map driver; unit_after_step incl. non-zero-ness for Mahony IMU and AngularRate "
+           "(closed, series order 1); for Madgwick IMU, ROLEQ, AQUA.estimate, SAAM, FAMC, AngularRate series-2 only 'unit unless the "
+           "pre-normalisation vector is exactly zero' (missing: non-zero-ness, e.g. Madgwick needs beta*dt < 1 and a non-zero gradient; "
+           "SAAM is refuted at level poses); Mahony MARG, Madgwick MARG, AQUA updateIMU/MARG, Fourati, FQA, TRIAD, Tilt are regenerated and "
+           "float-checked but carry no theorem (their let-DAGs are too large for the kernel's conversion); EKF, UKF, FKF, QUEST, Davenport, "
+           "FLAE, OLEQ, Complementary: search oracle only; float finiteness over several decades: explored, not proved")
+
+
+def _impl():
+    import ahrs.filters as F
+    q = lambda c: np.array([c[k] for k in Q]); g = lambda c: np.array([c[k] for k in G])
+    a = lambda c: np.array([c[k] for k in A]); m = lambda c: np.array([c[k] for k in M])
+
+    def mahony(c, marg):
+        f = F.Mahony(b0=np.array([c[k] for k in B3]))
+        r = f.updateMARG(q(c), g(c), a(c), m(c)) if marg else f.updateIMU(q(c), g(c), a(c))
+        return [np.asarray(r), f.b]
+    return {
+        'mahony_imu': lambda c: mahony(c, False), 'mahony_marg': lambda c: mahony(c, True),
+        'madgwick_imu': lambda c: F.Madgwick().updateIMU(q(c), g(c), a(c)),
+        'madgwick_marg': lambda c: F.Madgwick().updateMARG(q(c), g(c), a(c), m(c)),
+        'aqua_imu': lambda c: F.AQUA().updateIMU(q(c), g(c), a(c)),
+        'aqua_marg': lambda c: F.AQUA().updateMARG(q(c), g(c), a(c), m(c)),
+        'aqua_est_acc': lambda c: np.asarray(F.AQUA().estimate(a(c))),
+        'aqua_est_am': lambda c: F.AQUA().estimate(a(c), m(c)),
+        'fourati': lambda c: F.Fourati(magnetic_dip=[0.0, 0.6, 0.0, 0.8]).update(q(c), g(c), a(c), m(c)),
+        'roleq': lambda c: F.ROLEQ(magnetic_ref=list(MREF3), weights=np.ones(2)).update(q(c), g(c), a(c), m(c)),
+        'angular_closed': lambda c: F.AngularRate().update(q(c), g(c)),
+        'angular_series1': lambda c: F.AngularRate().update(q(c), g(c), method='series', order=1),
+        'angular_series2': lambda c: F.AngularRate().update(q(c), g(c), method='series', order=2),
+        'tilt_acc': lambda c: F.Tilt().estimate(a(c)), 'tilt_am': lambda c: F.Tilt().estimate(a(c), m(c)),
+        'tilt_am_angles': lambda c: F.Tilt().estimate(a(c), m(c), representation='angles'),
+        'complementary_am': lambda c: F.Complementary().am_estimation(a(c), m(c)),
+        'saam': lambda c: F.SAAM().estimate(a(c), m(c)), 'famc': lambda c: F.FAMC().estimate(a(c), m(c)),
+        'fqa': lambda c: F.FQA(mag_ref=list(MREF3)).estimate(a(c), m(c)),
+        'triad': lambda c: F.TRIAD(v1=[0.0, 0.0, 1.0], v2=list(MREF3)).estimate(a(c), m(c)),
+        'flae_W': lambda c: (lambda f: f._P1Hx(np.array([c[k] for k in H3[0:3]])) + f._P2Hy(np.array([c[k] for k in H3[3:6]]))
+                             + f._P3Hz(np.array([c[k] for k in H3[6:9]])))(F.FLAE()),
+        'fkf_meas': lambda c: F.FKF().measurement_quaternion_acc_mag(q(c), a(c), m(c))[0],
+    }
+
+
+def correspondence(ctx):
+    """regenerated float steps vs the public methods of `import ahrs` on the same bits; then the row count of the driver model"""
+    I = _impl()
+    n = ctx.n(24, 200)
+    cases = []
+    for i in range(n):
+        qv = cm.rand_unit_quat(ctx.rng)
+        s = 10.0 ** ctx.rng.uniform(-2, 2, 3)
+        gv, av, mv = (cm.unit(ctx.rng.standard_normal(3)) * s[k] for k in range(3))
+        bv = ctx.rng.standard_normal(3) * 0.01
+        hv = ctx.rng.standard_normal(9)
+        cases.append({**cm.d(Q, qv), **cm.d(B3, bv), **cm.d(G, gv), **cm.d(A, av), **cm.d(M, mv), **cm.d(H3, hv)})
+    # canonical measurements on a generic state (exact zeros exercise the sign / branch decisions)
+    for av, mv in (([0, 0, 1.0], [0.4, 0, 0.9]), ([0, 0, -2.0], [0.4, 0.1, -0.9]), ([3.0, 0, 0], [0, 0.5, 0.5]), ([0, -1.0, 0], [0.3, 0.2, 0.1])):
+        qv = cm.rand_unit_quat(ctx.rng)
+        cases.append({**cm.d(Q, qv), **cm.d(B3, [0, 0, 0]), **cm.d(G, [0.1, -0.2, 0.3]), **cm.d(A, av), **cm.d(M, mv), **cm.d(H3, range(9))})
+    loose = {'aqua_imu', 'aqua_marg', 'fqa', 'tilt_acc', 'tilt_am', 'tilt_am_angles', 'complementary_am', 'aqua_est_am', 'famc', 'fourati'}
+    for name, f in I.items():
+        t = ctx.targets.get(f'C03_{name}')
+        if t is None:
+            continue
+        cs = [{k: c[k] for k in t.inputs} for c in cases]
+        ctx.correspond(f'C03_{name}', cs, f, tol_ulp=(1 << 22) if name in loose else 4096, abs_tol=1e-13)
+    # driver model: exactly one row per sample
+    Ns = [2, 3, 4, 5, 7]
+    pre = ['From Coq Require Import List.', 'From AhrsModel Require Import C03_driver.', 'Import ListNotations.']
+    ex = [f"(length (batch nat nat (fun s x => s + x) (fun x => x) (repeat 1 {N})), length (pointwise nat nat (fun x => x) (repeat 1 {N})))" for N in Ns]
+    outs = ctx.coq_eval('C03_driver_rows', pre, ex)
+    if outs is not None:
+        cfgs = configs()
+        for N, o in zip(Ns, outs):
+            want = [int(x) for x in __import__('re').findall(r'\d+', o)]
+            H = rand_hist(ctx.rng, N)
+            for cfg in cfgs[N % 3::3]:
+                np.random.seed(1)
+                r = __import__('vlib.core', fromlist=['call_outcome']).call_outcome(_observe, *cfg, *[h.copy() for h in H])
+                if r[0] == 'raise':
+                    continue                        # rejections are the search oracle's business
+                rows = [len(np.asarray(X)) for _, _, X in r[1]]
+                if any(k != want[0] or k != want[1] for k in rows):
+                    ctx.disagree('C03_driver_rows', {'cfg': list(map(str, cfg)), 'N': N}, want, rows, 'row count differs from the scan/map driver model')
+                else:
+                    ctx.agree('C03_driver_rows')
 
 
 # ------------------------------------------------------------------------------------------
@@ -84,9 +188,9 @@ PSETS = {
     'Davenport': [{}, {'weights': _W2}, {'magnetic_dip': 60.0}],
     'FLAE': [{}, {'weights': _W2}, {'magnetic_dip': 60.0}],
     'OLEQ': [{}, {'weights': _W2}, {'magnetic_ref': 60.0}],
-    'TRIAD': [{}, {'v2': 60.0}],
+    'TRIAD': [{}, {'v2': [0.6, 0.0, 0.8]}],
 }
-_ARRAY_KW = ('weights', 'q0', 'mag_ref', 'noises')
+_ARRAY_KW = ('weights', 'q0', 'mag_ref', 'noises', 'v2')
 
 # class -> list of (arch, frames)
 ARCHS = {
@@ -199,11 +303,19 @@ def o_attitudes(inp):
     cls, arch, frame, ps = inp['cls'], inp['arch'], inp.get('frame'), int(inp.get('pset', 0))
     gyr, acc, mag = (np.array(inp[k], dtype=float) for k in ('gyr', 'acc', 'mag'))
     N = len(acc)
+    form = inp.get('form', 'float64')
     region = inp.get('region', 'generic')
     where = f"{cls}.{arch}" + (f".{frame}" if frame else '')
     suffix = '' if region == 'generic' else f"@{region}"
     np.random.seed(12345)                      # OLEQ draws its start vector from NumPy's global generator
-    r = call_outcome(_observe, cls, arch, frame, ps, gyr.copy(), acc.copy(), mag.copy())
+    if form == 'list':
+        args = (gyr.tolist(), acc.tolist(), mag.tolist())
+    elif form == 'int':
+        args = (gyr.astype(int), acc.astype(int), mag.astype(int))
+        suffix += '+int'
+    else:
+        args = (gyr.copy(), acc.copy(), mag.copy())
+    r = call_outcome(_observe, cls, arch, frame, ps, *args)
     if r[0] == 'raise':
         return {'tag': f"{where}/raises-{r[1]}{suffix}", 'observed': list(r[1:]), 'expected': f'{N} valid attitudes'}
     for attr, kind, X in r[1]:
@@ -214,7 +326,83 @@ def o_attitudes(inp):
     return None
 
 
-ORACLES = {'attitudes': o_attitudes}
+# ---- one update step through the public method (the objects of the unit_after_step theorems) ----------------------
+STEPS = {
+    'Madgwick.updateIMU': lambda F, q, g, a, m: F.Madgwick().updateIMU(q, g, a),
+    'Madgwick.updateMARG': lambda F, q, g, a, m: F.Madgwick().updateMARG(q, g, a, m),
+    'Mahony.updateIMU': lambda F, q, g, a, m: F.Mahony().updateIMU(q, g, a),
+    'Mahony.updateMARG': lambda F, q, g, a, m: F.Mahony().updateMARG(q, g, a, m),
+    'AQUA.updateIMU': lambda F, q, g, a, m: F.AQUA().updateIMU(q, g, a),
+    'AQUA.updateMARG': lambda F, q, g, a, m: F.AQUA().updateMARG(q, g, a, m),
+    'Fourati.update': lambda F, q, g, a, m: F.Fourati().update(q, g, a, m),
+    'ROLEQ.update': lambda F, q, g, a, m: F.ROLEQ().update(q, g, a, m),
+    'AngularRate.update': lambda F, q, g, a, m: F.AngularRate().update(q, g),
+    'AngularRate.update-series3': lambda F, q, g, a, m: F.AngularRate().update(q, g, method='series', order=3),
+    'EKF.update': lambda F, q, g, a, m: F.EKF().update(q, g, a),
+}
+# single-sample entry points of the single-frame estimators (generic samples only: the canonical poses are exercised,
+# with their recorded findings, through the batch constructors)
+ESTIMATES = {
+    'Tilt.estimate': lambda F, q, g, a, m: F.Tilt().estimate(a, m),
+    'Tilt.estimate-acc': lambda F, q, g, a, m: F.Tilt().estimate(a),
+    'AQUA.estimate': lambda F, q, g, a, m: F.AQUA().estimate(a, m),
+    'SAAM.estimate': lambda F, q, g, a, m: F.SAAM().estimate(a, m),
+    'FAMC.estimate': lambda F, q, g, a, m: F.FAMC().estimate(a, m),
+    'FQA.estimate': lambda F, q, g, a, m: F.FQA().estimate(a, m),
+    'QUEST.estimate': lambda F, q, g, a, m: F.QUEST().estimate(a, m),
+    'Davenport.estimate': lambda F, q, g, a, m: F.Davenport().estimate(a, m),
+    'FLAE.estimate': lambda F, q, g, a, m: F.FLAE().estimate(a, m),
+    'FLAE.estimate-eig': lambda F, q, g, a, m: F.FLAE().estimate(a, m, method='eig'),
+    'OLEQ.estimate': lambda F, q, g, a, m: F.OLEQ().estimate(a, m),
+    'TRIAD.estimate-quaternion': lambda F, q, g, a, m: F.TRIAD().estimate(a, m, representation='quaternion'),
+}
+STEPS.update(ESTIMATES)
+
+
+def o_step(inp):
+    """one update step from a unit quaternion on non-zero samples returns a real, finite unit quaternion"""
+    import ahrs.filters as F
+    from vlib.core import call_outcome
+    q, g, a, m = (np.array(inp[k], dtype=float) for k in ('q', 'gyr', 'acc', 'mag'))
+    kind = inp.get('kind', 'generic')
+    suffix = '' if kind == 'generic' else f'@{kind}'
+    np.random.seed(12345)
+    r = call_outcome(STEPS[inp['cls']], F, q.copy(), g.copy(), a.copy(), m.copy())
+    if r[0] == 'raise':
+        return {'tag': f"{inp['cls']}/raises-{r[1]}{suffix}", 'observed': list(r[1:])}
+    bad = _validate('quaternion', np.asarray(r[1])[None] if np.ndim(r[1]) == 1 else r[1], 1)
+    if bad is not None:
+        return {'tag': f"{inp['cls']}/{bad[0]}{suffix}", 'observed': bad[1], 'expected': 'a real finite unit quaternion'}
+    return None
+
+
+def step_cases(rng, n):
+    out = []
+    for cls in STEPS:
+        for k in range(n):
+            q = cm.rand_unit_quat(rng)
+            g, a, m = rand_hist(rng, 1)
+            out.append({'cls': cls, 'kind': 'generic', 'q': q.tolist(), 'gyr': g[0].tolist(), 'acc': a[0].tolist(), 'mag': m[0].tolist()})
+        if cls in ESTIMATES:
+            continue
+        # thin regions: measured gravity exactly opposite to / exactly equal to the gravity predicted by the state
+        for q, a, kind in (([1.0, 0, 0, 0], [0, 0, -1.0], 'antipodal'), ([0, 1.0, 0, 0], [0, 0, 2.0], 'antipodal'),
+                           ([0, 0, 1.0, 0], [0, 0, 0.5], 'antipodal'), ([1.0, 0, 0, 0], [0, 0, 3.0], 'aligned'),
+                           ([0.5, 0.5, 0.5, 0.5], [2.0, 0, 0], 'aligned'), ([0.5, 0.5, 0.5, 0.5], [-2.0, 0, 0], 'antipodal')):
+            out.append({'cls': cls, 'kind': kind, 'q': list(map(float, q)), 'gyr': [0.01, -0.02, 0.03], 'acc': list(map(float, a)),
+                        'mag': [0.4, 0.1, -0.3]})
+    return out
+
+
+def _call_step(inp):
+    from vlib.core import call_outcome
+    r = call_outcome(o_step, inp)
+    if r[0] == 'raise':
+        return {'tag': f"{inp['cls']}/oracle-raises-{r[1]}", 'observed': list(r[1:])}
+    return r[1]
+
+
+ORACLES = {'attitudes': o_attitudes, 'step': o_step}
 
 # ---- histories -----------------------------------------------------------------------------
 DIP = math.radians(64.0)
@@ -271,12 +459,16 @@ def rand_hist(rng, N):
     return gyr, acc, mag
 
 
-def pose_hist(rng, pose, N, lead=0):
+def pose_hist(rng, pose, N, lead=0, integer=False):
     """N samples of one canonical pose (exact directions, random positive magnitudes), optionally preceded by `lead` random
     samples so that a recursive filter's state is generic when the canonical measurement arrives"""
     _, _, a, m = pose
     sa, sm = 10.0 ** rng.uniform(-3, 3), 10.0 ** rng.uniform(-3, 3)
     gyr = rng.standard_normal((N + lead, 3)) * 10.0 ** rng.uniform(-3, 1)
+    if integer:           # exactly representable integer-valued samples (handed over as an integer array)
+        a, m = np.round(a * 10), np.round(m * 10)
+        sa = sm = 1.0
+        gyr = np.round(rng.uniform(1, 3, (N + lead, 3))) * rng.choice([-1.0, 1.0], (N + lead, 3))
     acc = np.tile(a * sa, (N + lead, 1)); mag = np.tile(m * sm, (N + lead, 1))
     if lead:
         g0, a0, m0 = rand_hist(rng, lead)
@@ -291,25 +483,32 @@ def _inp(cfg, region, H):
             'gyr': g.tolist(), 'acc': a.tolist(), 'mag': m.tolist()}
 
 
+NS = (2, 3, 4, 5, 7)
+
+
 def search(ctx, scale):
-    from .C01 import cm_call
     cfgs = configs()
     P = poses()
-    nrand = 2 * scale
-    npose = 4 * scale
-    k = 0
+    nrand = 3 * scale
     for ci, cfg in enumerate(cfgs):
         for j in range(nrand):
-            N = int(ctx.rng.integers(2, 9))
+            N = NS[(ci + j) % len(NS)]
             inp = _inp(cfg, 'generic', rand_hist(ctx.rng, N))
+            if (ci + j) % 4 == 3:
+                inp['form'] = 'list'
             ctx.check('attitudes', inp, _call(inp), nontrivial_key=(cfg, 'generic', j))
-        for j in range(npose):
-            pose = P[(ci * 7 + k) % len(P)] if scale == 1 else P[(ci + k) % len(P)]
-            k += 1
-            lead = (0, 2)[j % 2]
-            inp = _inp(cfg, pose[0], pose_hist(ctx.rng, pose, int(ctx.rng.integers(2, 5)), lead))
+        for pi, pose in enumerate(P):
+            if scale == 1 and (pi + ci) % 2:         # quick tier: every second pose per configuration (all poses over two configs)
+                continue
+            lead = (0, 2)[(pi // 2 + ci) % 2]
+            N = NS[(ci + pi) % len(NS)]
+            inp = _inp(cfg, pose[0], pose_hist(ctx.rng, pose, N, lead))
+            if (ci + pi) % 5 == 0:
+                inp['form'] = 'list'
             inp['pose'] = pose[1]
             ctx.check('attitudes', inp, _call(inp), nontrivial_key=(cfg, pose[1], lead))
+    for inp in step_cases(ctx.rng, 6 * scale):
+        ctx.check('step', inp, _call_step(inp), nontrivial_key=(inp['cls'], inp['kind'], tuple(np.round(inp['q'], 6))))
     if len(ctx.samples) < 8:
         ctx.samples.append({'kind': 'search', 'oracle': 'attitudes',
                             'input': {k: v for k, v in _inp(cfgs[0], 'generic', rand_hist(ctx.rng, 2)).items()}})
